@@ -4,11 +4,13 @@
 use serde_json::json;
 use std::collections::BTreeMap;
 use std::path::{Path, PathBuf};
+use flute::receiver::writer::{ObjectMetadata, ObjectWriter, ObjectWriterBuilder, ObjectWriterBuilderResult};
+use std::cell::RefCell;
 use std::rc::Rc;
 use std::time::SystemTime;
 use vh::hostile::{expires_in, wrap_fdt};
 use vh::report::*;
-use vh::session::{md5_b64, sandbox_dir};
+use vh::session::md5_b64;
 use vh::util::{self, Rng};
 use vh::wire::{self, Fti};
 
@@ -128,16 +130,79 @@ fn make_jail(tag: &str) -> Jail {
     Jail { jail, dest, abs_escape }
 }
 
+type Journal = Rc<RefCell<Vec<String>>>;
+
+/// The real filesystem writer behind a wrapper that journals what the receiver asks of it (and what open answered)
+struct JournalBuilder {
+    inner: flute::receiver::writer::ObjectWriterFSBuilder,
+    journal: Journal,
+}
+
+struct JournalWriter {
+    inner: Box<dyn ObjectWriter>,
+    journal: Journal,
+}
+
+impl ObjectWriterBuilder for JournalBuilder {
+    fn new_object_writer(&self, endpoint: &flute::core::UDPEndpoint, tsi: &u64, toi: &u128, meta: &ObjectMetadata, now: SystemTime) -> ObjectWriterBuilderResult {
+        match self.inner.new_object_writer(endpoint, tsi, toi, meta, now) {
+            ObjectWriterBuilderResult::StoreObject(w) => {
+                self.journal.borrow_mut().push("new".to_string());
+                ObjectWriterBuilderResult::StoreObject(Box::new(JournalWriter { inner: w, journal: self.journal.clone() }))
+            }
+            other => other,
+        }
+    }
+    fn update_cache_control(&self, endpoint: &flute::core::UDPEndpoint, tsi: &u64, toi: &u128, meta: &ObjectMetadata, now: SystemTime) {
+        self.inner.update_cache_control(endpoint, tsi, toi, meta, now)
+    }
+    fn fdt_received(&self, endpoint: &flute::core::UDPEndpoint, tsi: &u64, fdt_xml: &str, expires: SystemTime, meta: &ObjectMetadata, transfer_duration: std::time::Duration, now: SystemTime, ext_time: Option<SystemTime>) {
+        self.inner.fdt_received(endpoint, tsi, fdt_xml, expires, meta, transfer_duration, now, ext_time)
+    }
+}
+
+impl ObjectWriter for JournalWriter {
+    fn open(&self, now: SystemTime) -> flute::error::Result<()> {
+        let r = self.inner.open(now);
+        self.journal.borrow_mut().push(if r.is_ok() { "open=Ok".to_string() } else { "open=Err".to_string() });
+        r
+    }
+    fn write(&self, sbn: u32, data: &[u8], now: SystemTime) -> flute::error::Result<()> {
+        self.journal.borrow_mut().push("write".to_string());
+        self.inner.write(sbn, data, now)
+    }
+    fn complete(&self, now: SystemTime) {
+        self.journal.borrow_mut().push("complete".to_string());
+        self.inner.complete(now)
+    }
+    fn error(&self, now: SystemTime) {
+        self.journal.borrow_mut().push("error".to_string());
+        self.inner.error(now)
+    }
+    fn interrupted(&self, now: SystemTime) {
+        self.journal.borrow_mut().push("interrupted".to_string());
+        self.inner.interrupted(now)
+    }
+    fn enable_md5_check(&self) -> bool {
+        self.inner.enable_md5_check()
+    }
+}
+
 /// Push a hand-built session announcing `location` into a receiver with the
 /// filesystem writer. ending: 0 complete, 1 error (MD5 mismatch), 2 interrupted (early B flag)
-fn run_location(dest: &Path, location: &str, ending: usize, data: &[u8]) -> Result<(), util::PanicInfo> {
+/// ending 3 / 4: the FDT carries no FEC-OTI at all (the OTI comes in-band with EXT_FTI only, the writer is opened
+/// from the object's first packet); 3 = an empty object, 4 = a complete one.
+/// Returns the journal of the calls made to the filesystem writer and nb_objects_error() at the end.
+fn run_location(dest: &Path, location: &str, ending: usize, data: &[u8]) -> Result<(Vec<String>, usize), util::PanicInfo> {
+    let data: &[u8] = if ending == 3 { &[] } else { data };
+    let oti_attrs = if ending >= 3 { String::new() } else { format!(" FEC-OTI-FEC-Encoding-ID=\"0\" FEC-OTI-Maximum-Source-Block-Length=\"64\" FEC-OTI-Encoding-Symbol-Length=\"{}\"", 16) };
     let toi: u128 = 9;
     let tsi: u64 = 4;
     let e = 16usize;
     let md5 = if ending == 1 { md5_b64(b"something else") } else { md5_b64(data) };
     let xml = format!(
-        "<?xml version=\"1.0\" encoding=\"UTF-8\"?>\n<FDT-Instance xmlns=\"urn:IETF:metadata:2005:FLUTE:FDT\" Expires=\"{}\" FEC-OTI-FEC-Encoding-ID=\"0\" FEC-OTI-Maximum-Source-Block-Length=\"64\" FEC-OTI-Encoding-Symbol-Length=\"{}\"><File TOI=\"{}\" Content-Location=\"{}\" Content-Length=\"{}\" Transfer-Length=\"{}\" Content-MD5=\"{}\"/></FDT-Instance>",
-        expires_in(3600), e, toi, xml_escape(location), data.len(), data.len(), md5);
+        "<?xml version=\"1.0\" encoding=\"UTF-8\"?>\n<FDT-Instance xmlns=\"urn:IETF:metadata:2005:FLUTE:FDT\" Expires=\"{}\"{}><File TOI=\"{}\" Content-Location=\"{}\" Content-Length=\"{}\" Transfer-Length=\"{}\" Content-MD5=\"{}\"/></FDT-Instance>",
+        expires_in(3600), oti_attrs, toi, xml_escape(location), data.len(), data.len(), md5);
     let mut seq = wrap_fdt(xml.as_bytes(), tsi, 3, 1400, None, true);
     let fti = Fti { fec: 0, l: data.len() as u64, e: e as u16, b: 64, ..Default::default() };
     let k = data.len().div_ceil(e);
@@ -157,16 +222,29 @@ fn run_location(dest: &Path, location: &str, ending: usize, data: &[u8]) -> Resu
         let en = (s + e).min(data.len());
         seq.push(wire::encode(&l, &[wire::ext_fti(&fti)], &wire::payload_id(0, 0, esi as u32, 0, 8), &data[s..en]));
     }
+    if data.is_empty() {
+        // an empty object: one packet without payload, close-object flag set
+        let mut l = wire::enc_lct(tsi, toi, 0);
+        l.b = true;
+        seq.push(wire::encode(&l, &[wire::ext_fti(&fti)], &wire::payload_id(0, 0, 0, 0, 8), &[]));
+    }
     let dest = dest.to_path_buf();
     util::guarded(move || {
-        let w = Rc::new(flute::receiver::writer::ObjectWriterFSBuilder::new(&dest, true).expect("dest is a directory"));
-        let mut rx = flute::receiver::MultiReceiver::new(w, None, false);
+        let journal: Journal = Rc::new(RefCell::new(vec![]));
+        let w = Rc::new(JournalBuilder { inner: flute::receiver::writer::ObjectWriterFSBuilder::new(&dest, true).expect("dest is a directory"), journal: journal.clone() });
+        // endings 3 / 4: the receiver keeps track of failed objects (the default configuration forgets them at once),
+        // so that "the object failed" is visible through nb_objects_error()
+        let config = if ending >= 3 { Some(flute::receiver::Config { max_objects_error: 16, ..Default::default() }) } else { None };
+        let mut rx = flute::receiver::MultiReceiver::new(w, config, false);
         let ep = flute::core::UDPEndpoint::new(None, "224.0.0.1".into(), 3400);
         let now: SystemTime = util::at(1000);
         for b in &seq {
             let _ = rx.push(&ep, b, now);
         }
+        let nb_err = if ending >= 3 { rx.nb_objects_error() } else { usize::MAX };
         drop(rx);
+        let j = journal.borrow().clone();
+        (j, nb_err)
     })
 }
 
@@ -240,7 +318,7 @@ fn judge_location(tag: &str, location_of: &dyn Fn(&Jail, &str) -> String, cr: &m
     let mut j = make_jail(tag);
     let mut before = Snap::new();
     snapshot(&j.jail, &mut before);
-    for ending in 0..3 {
+    for ending in 0..5 {
         let location = location_of(&j, &token);
         shown = Some(location.clone());
         let data = format!("payload-of-{}-{}-0123456789abcdef0123456789", tag, ending).into_bytes();
@@ -249,10 +327,25 @@ fn judge_location(tag: &str, location_of: &dyn Fn(&Jail, &str) -> String, cr: &m
         snapshot(&j.jail, &mut after);
         let dest_s = format!("{}/", j.dest.to_string_lossy());
         let inside = |p: &str| p.starts_with(&dest_s);
-        let end_name = ["complete", "error", "interrupted"][ending];
-        if let Err(p) = r {
-            cr.violations.push(Violation::new("panic", format!("{} @ {}", p.msg, p.short_loc())).with("site", p.file())
-                .witness(json!({"location": location, "ending": end_name})));
+        let end_name = ["complete", "error", "interrupted", "empty_inband_oti", "complete_inband_oti"][ending];
+        match &r {
+            Err(p) => cr.violations.push(Violation::new("panic", format!("{} @ {}", p.msg, p.short_loc())).with("site", p.file())
+                .witness(json!({"location": location, "ending": end_name}))),
+            Ok((journal, nb_err)) => {
+                // "a location that cannot be mapped inside that directory makes the object fail": once the writer has
+                // refused the location (open answered Err) nothing is written, the object is never reported complete
+                // and it is counted in error
+                if let Some(k) = journal.iter().position(|e| e == "open=Err") {
+                    cr.count("locations_refused_by_the_writer", 1);
+                    let used = journal[k + 1..].iter().any(|e| e == "write" || e == "complete");
+                    if used || *nb_err == 0 {
+                        cr.violations.push(Violation::new("refused_not_failed", format!(
+                            "Content-Location {:?} ({} ending): the writer refused the location, calls made to it {:?}, nb_objects_error() = {}", location, end_name, journal, nb_err))
+                            .with("ending", end_name).with("completed", journal[k + 1..].iter().any(|e| e == "complete")).with("counted_in_error", *nb_err > 0)
+                            .witness(json!({"location": location, "ending": end_name, "journal": journal})));
+                    }
+                }
+            }
         }
         let mut touched: Vec<String> = vec![];
         for (p, v) in &after {
@@ -303,7 +396,7 @@ fn judge_location(tag: &str, location_of: &dyn Fn(&Jail, &str) -> String, cr: &m
         }
     }
     let _ = std::fs::remove_dir_all(&j.jail);
-    cr.count("sessions", 3);
+    cr.count("sessions", 5);
     if any_write {
         cr.count("locations_written_inside_dest", 1);
     }
@@ -467,7 +560,7 @@ fn strace_child(args: &[String]) -> ! {
         } else {
             grammar_location(&j.abs_escape, &token, rng.below(9 * 4 * 10_000) as usize, 4)
         };
-        let ending = k % 3;
+        let ending = k % 5;
         let data = b"0123456789abcdef0123456789abcdef0123456789".to_vec();
         let mark = format!("/VH-MARK-START|{}|{}", j.dest.to_string_lossy(), util::hex(location.as_bytes()));
         let _ = std::fs::metadata(&mark).is_ok();
